@@ -245,6 +245,13 @@ def jacobian_group_law(chk, p, pid="C06", rule="R06.10"):
             continue
         kinds.add("chord")
         ok, why = same_projective(res, ref, ("Z1", "Z2"))
+        # the chord formula is only valid for operands that are not the same point: the path must
+        # carry a test that excludes H == 0 and N == 0 together (a clause of non-zero literals on H / N)
+        def _excl(cl):
+            return all(l.kind == "nonzero" and isinstance(l.val, Rat) and l.val.is_poly() and
+                       (proportional_power(l.val.n.subst(sigma), H.n) or proportional_power(l.val.n.subst(sigma), N.n)) for l in cl)
+        if ok and not H.is_zero() and not any(_excl(cl) for cl in path.conds):
+            ok, why = False, "the chord formula is used without a test that excludes equal operands (for P == Q it degenerates to Z3 = 0)"
         extra = [q for q in polys if not (proportional_power(q, H.n) or proportional_power(q, N.n))]
         chk.ob(rule, "_add path [%s]: chord formula" % cond, ok, loc=loc, key=key,
                detail="on the path [%s] _add returns a triple that is not the chord-formula sum of (X1/Z1^2, Y1/Z1^3) and (X2/Z2^2, Y2/Z2^3): %s%s" % (cond, why, "; the path is taken under the unrecognised special case %r" % extra if extra else ""))
@@ -299,3 +306,67 @@ def _path_key(path):
     import hashlib
     txt = " & ".join(sorted("|".join(sorted(("%s:%r" % (l.kind, l.val)) if l.kind != "opaque" else ("%s:%s" % (l.pol, l.text)) for l in c)) for c in path.conds))
     return hashlib.sha1(txt.encode()).hexdigest()[:10]
+
+
+# ----------------------------------------------------------------------------- R08.3 (semantic)
+def mul_by_declared_order(chk, p, pid="C08", rule="R08.3"):
+    """PointJacobi.__mul__ on other = n for a point declaring order n: the subgroup test of
+    Public_key.__init__ (n * point == INFINITY) is only meaningful if the product is computed"""
+    n = V("n")
+    fm = p.func("ellipticcurve:PointJacobi.__mul__")
+    handed = []
+
+    def only_n(r):
+        return isinstance(r, Rat) and r.is_poly() and r.vars() <= {"n"}
+
+    def mod_hook(a, b):
+        # (k*n + c) % (m*n) on the generic large n: k mod m, c kept when 0 <= c (small constants)
+        if only_n(a) and only_n(b) and b.n.degree() == 1 and b.n.t.get((), 0) == 0:
+            m = b.n.t[(("n", 1),)]
+            if a.n.degree() <= 1 and m > 0:
+                k = a.n.t.get((("n", 1),), 0)
+                c = a.n.t.get((), 0)
+                if c == 0:
+                    return Rat(Poly({(("n", 1),): k % m}))
+        return None
+
+    def test_hook(test, env):
+        return None
+
+    def call_hook(ev, e, ftext, args, kw, st):
+        last = ftext.rsplit(".", 1)[-1]
+        if last in ("_mul_precompute", "_naf"):
+            handed.append((last, args[-1] if args else None, e))
+            return Unknown(last)
+        if last in ("_maybe_precompute", "scale"):
+            return args[0] if last == "scale" and args else NONE
+        return None
+
+    ev = FormulaEval(p, moduli=("p",), call_hook=call_hook, inline=lambda f: f.node.name in ("p", "a", "b", "curve", "order"))
+    ev.mod_hook = mod_hook
+    cur = ev.new_obj("CurveFp")
+    me = ev.new_obj("PointJacobi", {"_PointJacobi__coords": (V("Xs"), V("Ys"), V("Zs")), "_PointJacobi__order": n, "_PointJacobi__curve": cur,
+                                    "_PointJacobi__precompute": Unknown("table"), "_PointJacobi__generator": Unknown("generator flag")})
+    paths = ev.run(fm.qname, [me, n])
+    nearly = 0
+    for path in paths:
+        lits = [l for c in path.conds for l in c]
+        # generic n: a literal "k*n + c == 0" with (k, c) != 0 is infeasible; "!= 0" is vacuous
+        if any(l.kind == "zero" and only_n(l.val) and not l.val.is_zero() for l in lits):
+            continue
+        computed = any(l.kind == "opaque" for l in lits)
+        from_point = any(l.kind == "zero" and isinstance(l.val, Rat) and l.val.vars() & {"Xs", "Ys", "Zs"} for l in lits)
+        if path.kind == "return" and _is_inf(path.value) and not computed and not from_point:
+            nearly += 1
+            chk.ob(rule, "__mul__(n) on a point declaring order n is computed, not answered from the scalar", False, loc=p.loc("ellipticcurve", path.node) if path.node is not None else fm.qname,
+                   key="%s|%s|mul-order-shortcut" % (pid, rule),
+                   detail="PointJacobi.__mul__ returns INFINITY for the scalar n on a point that merely *declares* order n (path: %s): the subgroup test n * P == INFINITY of Public_key.__init__ becomes vacuous for decoded points" % _fmt_conds(path))
+    okh = bool(handed)
+    for name, v, e in handed:
+        okh &= isinstance(v, Rat) and v == n
+    chk.ob(rule, "__mul__(n): the scalar handed to the multiplication loops is still n [%d hand-over(s)]" % len(handed), okh, loc=fm.qname, key="%s|%s|mul-order-scalar" % (pid, rule),
+           detail="for the scalar n on a point declaring order n, __mul__ hands %s to its loops instead of n" % ([repr(v) for _n, v, _e in handed] or "nothing"))
+
+
+def _is_inf(v):
+    return isinstance(v, Obj) and v.cls == "$global" and v.tag == "INFINITY"
